@@ -2,6 +2,7 @@ package mptsim
 
 import (
 	"fmt"
+	"strings"
 
 	"verif/harness/sim"
 )
@@ -110,6 +111,9 @@ func genValue(r *sim.Rand, profile string, n int) []byte {
 	v := fmt.Sprintf("v%d", n)
 	if r.Chance(1, 8) {
 		v += string(make([]byte, r.Intn(100)))
+	}
+	if r.Chance(1, 60) { // sizes around typical thresholds
+		v += strings.Repeat("x", []int{200, 255, 256, 257, 1000, 4096, 70000}[r.Intn(7)])
 	}
 	return []byte(v)
 }
@@ -325,6 +329,10 @@ func GenRounds(prop string, r *sim.Rand, tier string) sim.Script {
 		nRounds = 2 + r.Intn(7)
 	}
 	maxTxn, maxOps := 4, 5
+	if r.Chance(1, 40) { // medium-long: long-range interactions between early and late rounds
+		nRounds = 10 + r.Intn(15)
+		nPool = 6 + r.Intn(14)
+	}
 	long := tier == "thorough" && prop == "C05" && r.Chance(1, 150)
 	if long {
 		nRounds = 40 + r.Intn(40)
@@ -399,9 +407,9 @@ func GenSched(r *sim.Rand, tier string) sim.Script {
 		var ops []Op
 		for i := 2 + r.Intn(5); i > 0; i-- {
 			p := pool[r.Intn(len(pool))]
-			w := []int{30, 18, 25, 8, 5, 4, 3, 4, 3}
+			w := []int{30, 18, 25, 8, 5, 4, 3, 4, 3, 6, 3}
 			if lossy {
-				w = []int{0, 0, 40, 10, 5, 15, 10, 0, 3}
+				w = []int{0, 0, 40, 10, 5, 15, 10, 0, 3, 0, 3}
 			}
 			switch r.Weighted(w) {
 			case 0:
@@ -423,6 +431,11 @@ func GenSched(r *sim.Rand, tier string) sim.Script {
 				ops = append(ops, Op{K: "save"})
 			case 8:
 				ops = append(ops, Op{K: "root"})
+			case 9:
+				n++
+				ops = append(ops, Op{K: "mchild", P: p, V: []byte(fmt.Sprintf("m%d", n))})
+			case 10:
+				ops = append(ops, Op{K: "validate"})
 			}
 		}
 		s.Tasks = append(s.Tasks, ops)
